@@ -7,20 +7,31 @@
 (* result (o.out), whether `on` named the key columns in alphabetical order (o.alpha) and,  *)
 (* for "run", every argument tuple the counting function F received          *)
 (* (o.calls, in call order - read as a bag).                                                     *)
+(* Every row of a table of the configuration says how the table spells its key (sp, see           *)
+(* "Spelling of keys" in Perdictable.tla: the driver rendered equal numbers by one object and     *)
+(* different numbers by different objects denoting the key); the rows that came back are read as  *)
+(* denotations.  o.same tells that the object returned is the very object passed as `data`: what  *)
+(* it holds is judged like any other table (o.out is always the content), only for an empty join  *)
+(* it is the named deviation EmptyJoin.                                                            *)
 EXTENDS Perdictable, Batch
 
 RowKeys(rows)   == {rows[n].key : n \in 1..Len(rows)}
 UniqueKeys(rows)== Cardinality(RowKeys(rows)) = Len(rows)
 MapOfRows(rows) == [k \in RowKeys(rows) |-> rows[CHOOSE n \in 1..Len(rows) : rows[n].key = k].v]
 OptOf(x)        == IF x.kind = "absent" THEN <<>> ELSE IF x.kind = "scalar" THEN <<"scalar", x.v>> ELSE <<MapOfRows(x.rows)>>
+SpellOfRows(rows) == [k \in RowKeys(rows) |-> rows[CHOOSE n \in 1..Len(rows) : rows[n].key = k].sp]
 CfgOf(o) == [ins    |-> [i \in 1..Len(o.c.ins) |-> [kind |-> o.c.ins[i].kind, v |-> o.c.ins[i].v, map |-> MapOfRows(o.c.ins[i].rows)]],
              defs   |-> o.c.defs,
              data   |-> OptOf(o.c.data),
              expiry |-> OptOf(o.c.expiry),
-             today  |-> o.today]
+             today  |-> o.today,
+             spell  |-> [t \in 1..(Len(o.c.ins) + 2) |->
+                            IF t <= Len(o.c.ins) THEN SpellOfRows(o.c.ins[t].rows)
+                            ELSE IF t = Len(o.c.ins) + 1 THEN SpellOfRows(o.c.data.rows) ELSE SpellOfRows(o.c.expiry.rows)]]
 WellFormed(o) == /\ \A i \in 1..Len(o.c.ins) : UniqueKeys(o.c.ins[i].rows)
                  /\ UniqueKeys(o.c.data.rows) /\ UniqueKeys(o.c.expiry.rows)
                  /\ Len(o.c.defs) = Len(o.c.ins)
+                 /\ o.same \in BOOLEAN
 
 \* the rows of a returned table, clause by clause
 TableVerdict(cf, nk, alpha, out, cols, pre) ==
@@ -32,13 +43,14 @@ TableVerdict(cf, nk, alpha, out, cols, pre) ==
     ELSE ""
 
 RunVerdict(o) ==
-    LET cf == CfgOf(o)  nk == o.c.nk  out == o.out  want == RunCalls(cf, nk) IN
+    LET cf == CfgOf(o)  nk == o.c.nk  out == o.out  want == RunCalls(cf, nk)
+        view == IF o.same THEN [kind |-> "data"] ELSE out IN     \* EmptyJoin: the supplied object itself, whatever it holds
     IF out.kind = "exc" THEN "raised"
     ELSE IF AllScalar(cf) THEN
          IF out \notin RunOutcomes(cf, nk, o.alpha) THEN "scalar_result"
          ELSE IF o.calls # want THEN "scalar_calls" ELSE ""
     ELSE IF JoinKeys(cf) = {} THEN
-         IF out \notin RunOutcomes(cf, nk, o.alpha) THEN "empty_join"
+         IF view \notin RunOutcomes(cf, nk, o.alpha) THEN "empty_join"
          ELSE IF o.calls # <<>> THEN "extra_call" ELSE ""
     ELSE LET tv == TableVerdict(cf, nk, o.alpha, out, RunCols(nk), "") IN
          IF tv # "" THEN tv
